@@ -93,7 +93,9 @@ def field_value(name, t):
         return np.array([t, t + 1, 2 * t], dtype=np.int32)
     if name == "c":
         return np.array([[t, 2 * t], [3 * t, 4 * t]], dtype=np.float32)
-    return Tok(t)
+    # arbitrary Python objects: a user class, a dict, a list (the store hands back the object that was stored --
+    # NumPy would wrap a dict into a 0-d array and turn a list into an array when asked to copy them)
+    return Tok(t) if t % 3 == 0 else ({"t": t} if t % 3 == 1 else [t, "x"])
 
 
 def make_rows(fields, toks):
@@ -119,11 +121,12 @@ def decode_row(fields, get):
         elif name == "c":
             t = int(v[0, 0])
         else:
-            t = v.t if isinstance(v, Tok) else None
+            t = v.t if isinstance(v, Tok) else (v.get("t") if type(v) is dict else
+                                                (v[0] if type(v) is list and len(v) == 2 else None))
         if t is None:
             return None
         exp = field_value(name, t)
-        same = (exp == v) if name == "d" else np.array_equal(np.asarray(exp), np.asarray(v))
+        same = (type(exp) is type(v) and exp == v) if name == "d" else np.array_equal(np.asarray(exp), np.asarray(v))
         if not same:
             return None
         toks.add(t)
